@@ -248,10 +248,12 @@ fn check(case: &Case, st: &mut Stats) -> Vec<Violation> {
         }
         let Some(new) = s.after.get(&a) else { continue };
         let prev = before.get(&a);
-        if c.df == 18 { continue; } // DF18 carriers are not in the statement's list: own row not judged
+        // DF18 carriers are not in the statement's list: its own row is judged only for the parameters a
+        // DF18 frame certainly does not carry (squawk, transponder capability, BDS 1,7 report)
+        let df18 = c.df == 18;
         let creating = prev.is_none();
         // idempotence: the same frame delivered again at the same clock to a row that already existed
-        if i >= 1 && !creating && h.steps[i - 1].lines.len() == 1 && h.steps[i - 1].lines[0] == *l && h.steps[i - 1].t_us == s.t_us {
+        if i >= 1 && !creating && !df18 && h.steps[i - 1].lines.len() == 1 && h.steps[i - 1].lines[0] == *l && h.steps[i - 1].t_us == s.t_us {
             let existed_before_first = if i >= 2 { h.steps[i - 2].after.contains_key(&a) } else { false };
             if existed_before_first {
                 st.probe("duplicate_immediately");
@@ -262,6 +264,7 @@ fn check(case: &Case, st: &mut Stats) -> Vec<Violation> {
             }
         }
         for p in PARAMS {
+            if df18 && !matches!(p.name, "squawk" | "capability (CA)" | "capability (BDS 1,7 report)") { continue; }
             let now = (p.get)(new);
             let old = prev.map(|r| (p.get)(r)).unwrap_or_else(|| blank(p.name));
             let r = role(p.name, &car, frame, relaxed);
